@@ -216,16 +216,134 @@ Section Main.
       + cbn [ans_of query_spec]. rewrite Hu, Es. reflexivity.
   Qed.
 
+  (* ---- call-frame information: the list a client holds and the decoded-table memos of its entries *)
+  Definition upd_held (s : state) (eh : bool) (v : option (list (option Z))) : state :=
+    set_cfis s (if eh then (fst (cfis s), v) else (v, snd (cfis s))).
+
+  Lemma held_upd_same s eh v : held eh (upd_held s eh v) = v.
+  Proof. unfold held, upd_held. destruct eh; reflexivity. Qed.
+
+  Lemma Inv_upd_held s eh v : Inv F s -> (forall l, v = Some l -> held_ok F eh l) -> Inv F (upd_held s eh v).
+  Proof.
+    intros [I1 I2 I3 I4 I5 I6 I7 I8 I9 I10 I11 I12] Hv. unfold upd_held. constructor; scbn; auto.
+    intros eh' l H. destruct eh, eh'; unfold held in H; cbn [cfis set_cfis fst snd] in H;
+      try (apply Hv; exact H); apply I12; exact H.
+  Qed.
+
+  Lemma ext_upd_held s eh v : ext s (upd_held s eh v).
+  Proof. unfold upd_held. ext_triv. Qed.
+
+  Lemma held_ok_fresh eh : held_ok F eh (repeat None (Z.to_nat (p_cfi_count P eh))).
+  Proof.
+    unfold P. pcbn. unfold zlen. rewrite Nat2Z.id. split; [apply repeat_length|].
+    intros i t H. apply nth_error_In in H. apply repeat_spec in H. discriminate.
+  Qed.
+
+  Lemma held_ok_upd eh l i e : held_ok F eh l -> nth_error (cfi_ents F eh) i = Some e ->
+    held_ok F eh (upd_nth i (fun _ => Some (ent_table e)) l).
+  Proof.
+    intros [Hl Hm] He. split; [rewrite upd_nth_length; exact Hl|].
+    intros i' t H. apply nth_error_upd_nth in H. destruct H as [(-> & y & Hy & Et)|(Hne & H)].
+    - inversion Et. eauto.
+    - apply Hm. exact H.
+  Qed.
+
+  Lemma cfi_fetch_ok s (eh : bool) v e : Inv F s -> (if eh then f_ehcfi F else f_cfi F) = Some (v, e) ->
+    exists c1, cfi_fetch P eh s = (upd_held (set_cur s c1) eh (Some (repeat None (Z.to_nat (p_cfi_count P eh)))), Ok v) /\
+               length c1 = length (cur s).
+  Proof.
+    intros HI Hv. destruct (cfi_entries_ok F WF fuel Hfu s eh v e HI Hv) as (c1 & E1 & L1).
+    exists c1. unfold cfi_fetch. fold P in E1. rewrite (bind_ok _ _ _ _ _ E1). split; [reflexivity|exact L1].
+  Qed.
+
   Lemma ref_CFI s afs eh : Inv F s -> frames_rel F s afs -> valid_op F (CFI eh) = true -> refines s afs (CFI eh).
   Proof.
     intros HI Hfr Hv. cbn [valid_op] in Hv.
     destruct (if eh then f_ehcfi F else f_cfi F) as [[v e]|] eqn:Ev; [|discriminate].
-    destruct (cfi_entries_ok F WF fuel Hfu s eh v e HI Ev) as (c1 & E1 & L1).
-    eapply query_finish with (s' := set_cur s c1) (r := Ok (AVals [v])); qf.
+    destruct (cfi_fetch_ok s eh v e HI Ev) as (c1 & E1 & L1).
+    eapply query_finish with (r := Ok (AVals [v])); [exact Hfr| | | | |reflexivity].
     - cbn [run_op]. rewrite (bind_ok _ _ _ _ _ E1). reflexivity.
-    - apply Inv_set_cur; auto.
-    - apply ext_set_cur.
+    - apply Inv_upd_held; [apply Inv_set_cur; auto|]. intros l E. inversion E. apply held_ok_fresh.
+    - eapply ext_trans; [apply ext_set_cur|apply ext_upd_held].
     - cbn [ans_of query_spec]. rewrite Ev. reflexivity.
+  Qed.
+
+  Lemma memo_get_ok s eh i l m : held eh s = Some l -> nth_error l (Z.to_nat i) = Some m ->
+    memo_get eh i s = (s, Ok m).
+  Proof. intros Hh Hn. unfold memo_get. rewrite bind_get_state, Hh, Hn. reflexivity. Qed.
+
+  Lemma memo_set_ok s eh i l t : held eh s = Some l ->
+    memo_set eh i t s = (upd_held s eh (Some (upd_nth (Z.to_nat i) (fun _ => Some t) l)), Ok tt).
+  Proof. intros Hh. unfold memo_set. rewrite bind_get_state, Hh. reflexivity. Qed.
+
+  Lemma cie_get_decoded_ok s eh j l ce : Inv F s -> held eh s = Some l -> 0 <= j ->
+    nth_error (cfi_ents F eh) (Z.to_nat j) = Some ce -> ent_kind ce = 0 ->
+    exists s' l', cie_get_decoded P eh j s = (s', Ok (ent_table ce)) /\ Inv F s' /\ ext s s' /\ held eh s' = Some l'.
+  Proof.
+    intros HI Hh Hj Hce Hk. pose proof (inv_cfis _ _ HI _ _ Hh) as [Hlen Hm].
+    destruct (nth_error l (Z.to_nat j)) as [m|] eqn:Hn.
+    2:{ apply nth_error_None in Hn. assert (Z.to_nat j < length (cfi_ents F eh))%nat by (apply nth_error_Some; congruence). lia. }
+    unfold cie_get_decoded. rewrite (bind_ok _ _ _ _ _ (memo_get_ok s eh j l m Hh Hn)).
+    destruct m as [t|].
+    - destruct (Hm _ _ Hn) as (e & He & Et). assert (e = ce) by congruence. subst e.
+      exists s, l. rewrite <- Et. split; [reflexivity|]. split; [exact HI|]. split; [apply ext_refl|exact Hh].
+    - assert (Hp : p_cfi_table P eh j None = Ok (ent_table ce)).
+      { unfold P. pcbn. rewrite Hce, Hk. reflexivity. }
+      rewrite Hp, bind_lift_ok. rewrite (bind_ok _ _ _ _ _ (memo_set_ok s eh j l _ Hh)).
+      eexists _, _. split; [reflexivity|]. split; [|split; [apply ext_upd_held|apply held_upd_same]].
+      apply Inv_upd_held; [exact HI|]. intros l' E. inversion E. apply held_ok_upd; [split; auto|exact Hce].
+  Qed.
+
+  Lemma ref_CFIDecoded s afs eh i : Inv F s -> frames_rel F s afs -> valid_op F (CFIDecoded eh i) = true ->
+    refines s afs (CFIDecoded eh i).
+  Proof.
+    intros HI Hfr Hv. cbn [valid_op] in Hv. apply andb_prop in Hv. destruct Hv as [Hv Hkind].
+    apply andb_prop in Hv. destruct Hv as [Hsec Hi].
+    destruct (if eh then f_ehcfi F else f_cfi F) as [[v e0]|] eqn:Ev; [|discriminate].
+    destruct (nth_error (cfi_ents F eh) (Z.to_nat i)) as [e|] eqn:He; [|discriminate].
+    (* the client holds a list *)
+    assert (Hstep : exists s1 l, (s0 <- get_state;; match held eh s0 with None => cfi_fetch P eh;;; ret tt | Some _ => ret tt end) s = (s1, Ok tt) /\
+                      Inv F s1 /\ ext s s1 /\ held eh s1 = Some l).
+    { rewrite bind_get_state. destruct (held eh s) as [l|] eqn:Hh.
+      - exists s, l. split; [reflexivity|]. split; [exact HI|]. split; [apply ext_refl|exact Hh].
+      - destruct (cfi_fetch_ok s eh v e0 HI Ev) as (c1 & E1 & L1). rewrite (bind_ok _ _ _ _ _ E1).
+        eexists _, _. split; [reflexivity|]. split; [|split; [eapply ext_trans; [apply ext_set_cur|apply ext_upd_held]|apply held_upd_same]].
+        apply Inv_upd_held; [apply Inv_set_cur; auto|]. intros l E. inversion E. apply held_ok_fresh. }
+    destruct Hstep as (s1 & l & E1 & HI1 & X1 & Hh1).
+    pose proof (inv_cfis _ _ HI1 _ _ Hh1) as [Hlen Hm].
+    assert (Hrange : (0 <=? i) && (i <? p_cfi_count P eh) = true).
+    { unfold P. pcbn. unfold zlen. assert (Z.to_nat i < length (cfi_ents F eh))%nat by (apply nth_error_Some; congruence). lia. }
+    assert (Hdec : exists s2, entry_get_decoded P eh i s1 = (s2, Ok (ent_table e)) /\ Inv F s2 /\ ext s1 s2).
+    { destruct (nth_error l (Z.to_nat i)) as [m|] eqn:Hn.
+      2:{ apply nth_error_None in Hn. assert (Z.to_nat i < length (cfi_ents F eh))%nat by (apply nth_error_Some; congruence). lia. }
+      unfold entry_get_decoded. rewrite (bind_ok _ _ _ _ _ (memo_get_ok s1 eh i l m Hh1 Hn)).
+      destruct m as [t|].
+      - destruct (Hm _ _ Hn) as (e' & He' & Et). assert (e' = e) by congruence. subst e'.
+        exists s1. rewrite <- Et. split; [reflexivity|]. split; [exact HI1|apply ext_refl].
+      - assert (Hk : p_cfi_kind P eh i = (ent_kind e, ent_cie e)) by (unfold P; pcbn; rewrite He; reflexivity).
+        rewrite Hk. destruct (Z.eqb_spec (ent_kind e) 0) as [Ek0|Ek0].
+        + destruct (cie_get_decoded_ok s1 eh i l e HI1 Hh1 ltac:(lia) He Ek0) as (s2 & l2 & E2 & HI2 & X2 & _).
+          exists s2. auto.
+        + destruct (Z.eqb_spec (ent_kind e) 1) as [Ek1|Ek1]; [|lia].
+          pose proof (wf_file_cfi F WF eh) as Hwf. unfold wf_cfi in Hwf. rewrite forallb_forall in Hwf.
+          specialize (Hwf e (nth_error_In _ _ He)). rewrite Ek1 in Hwf. cbn [Z.eqb negb orb] in Hwf.
+          apply andb_prop in Hwf. destruct Hwf as [Hj Hce].
+          destruct (nth_error (cfi_ents F eh) (Z.to_nat (ent_cie e))) as [ce|] eqn:Ece; [|discriminate].
+          destruct (cie_get_decoded_ok s1 eh (ent_cie e) l ce HI1 Hh1 ltac:(lia) Ece ltac:(lia)) as (s2 & l2 & E2 & HI2 & X2 & Hh2).
+          rewrite (bind_ok _ _ _ _ _ E2).
+          assert (Hp : p_cfi_table P eh i (Some (ent_table ce)) = Ok (ent_table e)).
+          { unfold P. pcbn. rewrite He. destruct (Z.eqb_spec (ent_kind e) 0); [lia|]. rewrite Ece, Z.eqb_refl. reflexivity. }
+          rewrite Hp, bind_lift_ok. rewrite (bind_ok _ _ _ _ _ (memo_set_ok s2 eh i l2 _ Hh2)).
+          eexists. split; [reflexivity|]. split; [|eapply ext_trans; [exact X2|apply ext_upd_held]].
+          apply Inv_upd_held; [exact HI2|]. intros l' E. inversion E.
+          apply held_ok_upd; [apply (inv_cfis _ _ HI2 _ _ Hh2)|exact He]. }
+    destruct Hdec as (s2 & E2 & HI2 & X2).
+    eapply query_finish with (s' := s2) (r := Ok (AVals [ent_table e])); [exact Hfr| |exact HI2|eapply ext_trans; eauto| |reflexivity].
+    - assert (Ecd : cfi_decoded P eh i s = (s2, Ok (ent_table e))).
+      { unfold cfi_decoded. rewrite bind_get_state. rewrite bind_get_state in E1. rewrite (bind_ok _ _ _ _ _ E1).
+        rewrite Hrange. exact E2. }
+      cbn [run_op]. rewrite (bind_ok _ _ _ _ _ Ecd). reflexivity.
+    - cbn [ans_of query_spec]. rewrite He. reflexivity.
   Qed.
 
   (* ================================================================ ELF level *)
